@@ -381,6 +381,35 @@ func (ex *Exec) modelled(st *State, ref string, fn *types.Func, recv *Val, args 
 			rs[0] = ex.retype(args[0], rs[0].T)
 		}
 		return rs, true
+	case "strconv.ParseInt", "strconv.ParseUint":
+		// decimal digit strings only; anything else yields an unconstrained (value, err)
+		if len(args) == 3 && args[1].C != nil {
+			str := args[0].S
+			n := ex.def("atoi", "Int", "(str.to_int "+str+")")
+			base := args[1].S
+			hi := "9223372036854775807"
+			if ref == "strconv.ParseUint" {
+				hi = "18446744073709551615"
+			}
+			plain := and("(>= "+n+" 0)", "(<= "+n+" "+hi+")")
+			if base == "0" {
+				// base 0: a leading 0 selects octal/hex/binary; underscores are permitted only with a prefix
+				plain = and(plain, or(eq("(str.len "+str+")", "1"), not(eq("(str.at "+str+" 0)", "\"0\""))))
+			} else if base != "10" {
+				break
+			}
+			rs := ex.freshResults(fn, resT, "parse")
+			if len(rs) == 2 {
+				st.assume(implies(plain, and(eq(rs[0].S, n), eq(rs[1].S, "0"))))
+				// a string that is not a plain decimal number of the right size: for base 10 it is an error
+				if base == "10" {
+					st.assume(implies(not(plain), not(eq(rs[1].S, "0"))))
+				}
+				ex.assumption("strconv.ParseInt/ParseUint: on a string of decimal digits within range the result is its numeric value and no error (SMT str.to_int); base 10 rejects everything else")
+				ex.modelUsed[ref]++
+				return rs, true
+			}
+		}
 	case "os.Exit":
 		st.assume("false")
 		return none()
